@@ -197,7 +197,9 @@ def run(ctx):
             if pi == 0:
                 progs = [[("write", "/W0.BIN", (b"A" * 1500).hex())], [("write", "/E/W1.BIN", (b"B" * 1500).hex())]]
             if pi == 1:
-                progs = [[("makedir", "/dir one/new a")], [("makedir", "/dir one/new b")]]
+                # two different names whose plain 8.3 alias is the same: the second one to be LINKED must get the numbered alias, whichever thread
+                # looked at the directory first (C19-m6: lookup and alias generation outside the lock)
+                progs = [[("makedir", "/dir one/projects alpha")], [("makedir", "/dir one/projects beta")]]
             if pi == 2:      # a handle write and a namespace operation in ONE directory (they must exclude each other: C19-m3)
                 progs = [[("write", "/dir one/W2.BIN", (b"C" * 1500).hex())], [("create", "/dir one/C2.TXT")]]
             label = f"fat{ft}-prog{pi}"
